@@ -48,10 +48,9 @@ def errMsg : FErr → String
   | .dataUnsupported => "MODEL:unsupported-definition"
   | .writer e => ConvD.werrMsg e
   | .codec .atEmpty => "exc:out_of_range"
-  | .codec .stackEmpty => "err:loopCmdWithoutStart"
-  | .codec .stackEmpty => "err:loopCmd"          -- InputError since repository fix c5dd456
+  | .codec .stackEmpty => "err:loopCmd"          -- InputError since repository fix 3e0ed67
   | .indexRange => "err:indexRange"
-  | .headerWrap => "err:headerTooLarge"       -- InputError since repository fix 8d409a9
+  | .headerWrap => "err:headerTooLarge"       -- InputError since repository fix 5952bf5
   | .seqTooLarge => "err:seqTooLarge"
   | .bankIndex => "UB:bank-index"
   | .riff _ => "exc:riff"
